@@ -35,7 +35,9 @@ FORM = ('E (exact): operands with Gaussian-integer entries |re|,|im| <= 3 (float
         'as_vector(), as_matrix() dense and the sparse path .toarray() exactly; exceptions must coincide with the model refusing. '
         'R (replay) for split_mps_tensor: the recorded split_matrix_svd call (argument matrix, q0, q1 compared exactly with the model\'s '
         'reshape) and its answer are the oracle of the model at Q[i]; A0, A1 within 1e-9(1+scale) in exact rational arithmetic, qbond exactly')
-RULE = ('expression trees over 1-3 operand MPS / MPO: +, -, add_mps/add_mpo with alpha in {1,-1,2,0,1j,-2+1j,..}, @, apply_operator, '
+RULE = ('[extended: operands of different dtypes (float/complex/int, both orders) for every binary operation at L = 1..5; common '
+        'scale factors 2^-40 .. 2^40 on operands (E-form, results scaled back exactly) and on split_mps_tensor / from_vector inputs '
+        '(relative tolerances); d = 1; all-zero tensors] expression trees over 1-3 operand MPS / MPO: +, -, add_mps/add_mpo with alpha in {1,-1,2,0,1j,-2+1j,..}, @, apply_operator, '
         'MPO.identity(scale, dtype), raw as_vector/as_matrix(dense, sparse), chained trees such as apply(((A+B)@C), psi); '
         'L in 1..5 (L = 1 and L = 2 in every group), d in 1..3, independent bond profiles (1..3, bond dimension 1 included) of the '
         'operands, all-zero / charged / disjoint quantum numbers with non-trivial matching boundary charges; merge_*_tensor_pair with '
@@ -203,22 +205,105 @@ def _base(rng, L, d, dtype, mode=None):
     return nrng, mode, qd, q0, word, word2
 
 
-def make_case(rng, kind, L, d, dtype, n_mps, n_mpo, expr, Dmps=3, Dmpo=3, mode=None, want_mat=None, mpo_bd=(1, 1)):
+def make_case(rng, kind, L, d, dtype, n_mps, n_mpo, expr, Dmps=3, Dmpo=3, mode=None, want_mat=None, mpo_bd=(1, 1),
+              dtypes=None, scale_exp=0):
+    """dtypes: optional {'mps': [...], 'mpo': [...]} per-operand dtypes (mixed-dtype operands);
+    scale_exp: every operand tensor is multiplied by 2**scale_exp in the implementation run (exact), results are scaled back"""
     nrng, mode, qd, q0, word, word2 = _base(rng, L, d, dtype, mode)
+    dtypes = dtypes or {'mps': [dtype] * n_mps, 'mpo': [dtype] * n_mpo}
     cplx = (dtype == 'complex')
-    mpss = [gen_mps(rng, nrng, qd, L, q0, word, Dmps, cplx, mode) for _ in range(n_mps)]
+    mpss = [gen_mps(rng, nrng, qd, L, q0, word, Dmps, dtypes['mps'][k] == 'complex', mode) for k in range(n_mps)]
     # MPO operands: the first two share boundary charges (they may be added); a third one gets its own
     mpos = []
     for k in range(n_mpo):
         if k < 2:
-            mpos.append(gen_mpo(rng, nrng, qd, L, q0, word, word2, Dmpo, cplx, mode, mpo_bd))
+            mpos.append(gen_mpo(rng, nrng, qd, L, q0, word, word2, Dmpo, dtypes['mpo'][k] == 'complex', mode, mpo_bd))
         else:
             w3 = [rng.randrange(d) for _ in range(L)]
-            mpos.append(gen_mpo(rng, nrng, qd, L, 0 if mode == 'zero' else rng.choice([0, -1, 2]), w3, word, Dmpo, cplx, mode, mpo_bd))
+            mpos.append(gen_mpo(rng, nrng, qd, L, 0 if mode == 'zero' else rng.choice([0, -1, 2]), w3, word, Dmpo, dtypes['mpo'][k] == 'complex', mode, mpo_bd))
     if want_mat is None:
         want_mat = d ** L <= 32 and tuple(mpo_bd) == (1, 1)
-    return {'kind': kind, 'L': L, 'd': d, 'dtype': dtype, 'mode': mode, 'valid': True, 'qd': qd, 'mps': mpss, 'mpo': mpos,
+    return {'kind': kind, 'L': L, 'd': d, 'dtype': dtype, 'dtypes': dtypes, 'scale_exp': int(scale_exp), 'mode': mode, 'valid': True,
+            'qd': qd, 'mps': mpss, 'mpo': mpos,
             'expr': expr, 'want_vec': d ** L <= 243, 'want_mat': bool(want_mat), 'dense_err': tuple(mpo_bd) != (1, 1)}
+
+
+def _weight(e):
+    """number of operand tensors multiplied per site in the result (how a common scale of the operands propagates)"""
+    tag = e[0]
+    if tag in ('psi', 'op'):
+        return 1
+    if tag == 'identity':
+        return 0
+    if tag in ('+', '-', 'o+', 'o-'):
+        a, b = _weight(e[1]), _weight(e[2])
+        assert a == b
+        return a
+    if tag in ('add_mps', 'add_mpo'):
+        a, b = _weight(e[2]), _weight(e[3])
+        assert a == b
+        return a
+    return _weight(e[1]) + _weight(e[2])
+
+
+MIXED_PAIRS = [('float', 'complex'), ('int', 'complex'), ('complex', 'float'), ('complex', 'int'), ('float', 'int'), ('int', 'float')]
+SCALE_EXPS = [-40, 40, -20, 20]
+
+
+def mixed_cases(rng, tier):
+    """operands of different dtypes, both orders, for every binary operation; scaled operands (powers of two)"""
+    out = []
+    ops = [('mps+', 2, 0, ['+', P0, P1]), ('mps-', 2, 0, ['-', P0, P1]), ('add_mps', 2, 0, None),
+           ('mpo+', 0, 2, ['o+', O0, O1]), ('mpo-', 0, 2, ['o-', O0, O1]), ('add_mpo', 0, 2, None),
+           ('mpo@', 0, 2, ['@', O0, O1]), ('apply', 1, 1, ['apply', O0, P0])]
+    npairs = {'quick': 2, 'thorough': 6, 'search': 2}[tier]
+    k = rng.randrange(100)
+    for L in (1, 2, 3, 4, 5):
+        for (name, nm, no, ex) in ops:
+            k += 1
+            # the first pair always has a real first and a complex second operand
+            pairs = [MIXED_PAIRS[k % 2]] + [MIXED_PAIRS[(k + j) % 6] for j in range(2, npairs + 1)]
+            for (da, db) in pairs[:npairs]:
+                d = rng.choice([2, 2, 3, 1]) if L <= 3 else rng.choice([2, 2, 1])
+                e = ex
+                if name == 'add_mps':
+                    e = ['add_mps', list(ALPHAS[k % len(ALPHAS)]), P0, P1]
+                if name == 'add_mpo':
+                    e = ['add_mpo', list(ALPHAS[(k + 1) % len(ALPHAS)]), O0, O1]
+                dts = {'mps': [da, db] if no == 0 else ([db] if nm else []), 'mpo': [da, db] if nm == 0 else ([da] if no else [])}
+                out.append(make_case(rng, 'mixed:' + name, L, d, 'complex', nm, no, e, Dmps=3, Dmpo=2,
+                                     mode=rng.choice(['zero', 'charged', 'charged']), dtypes=dts))
+    # a chained expression with three different dtypes
+    for L in (3, 5):
+        out.append(make_case(rng, 'mixed:chain', L, 2, 'complex', 3, 0, ['+', ['-', P0, P1], P2], Dmps=2,
+                             dtypes={'mps': ['float', 'complex', 'int'], 'mpo': []}))
+        out.append(make_case(rng, 'mixed:chain', L, 2, 'complex', 1, 3, ['apply', ['@', ['o+', O0, O1], O2], P0], Dmps=2, Dmpo=2,
+                             dtypes={'mps': ['float'], 'mpo': ['int', 'complex', 'float']}))
+    # common scale factor 2**k on all operand tensors: dense forms and operations at tiny / huge overall scale
+    k = rng.randrange(100)
+    scaled = [('as_vector', 1, 0, P0), ('as_matrix', 0, 1, O0), ('mps+', 2, 0, ['add_mps', [0, 1], P0, P1]),
+              ('mpo@', 0, 2, ['@', O0, O1]), ('apply', 1, 1, ['apply', O0, P0]), ('mpo-', 0, 2, ['o-', O0, O1])]
+    for (name, nm, no, ex) in scaled:
+        for L in ((1, 2, 3, 5) if tier != 'thorough' else (1, 2, 3, 4, 5)):
+            k += 1
+            sexp = SCALE_EXPS[k % len(SCALE_EXPS)]
+            d = rng.choice([2, 2, 1, 3]) if L <= 3 else 2
+            out.append(make_case(rng, 'scaled:' + name, L, d, ['float', 'complex'][k % 2], nm, no, ex, Dmps=2, Dmpo=2,
+                                 mode=rng.choice(['zero', 'charged']), scale_exp=sexp))
+    # all-zero operands
+    for L in (1, 3):
+        c = make_case(rng, 'zero:mps+', L, 2, 'float', 2, 0, ['-', P0, P1], mode='zero')
+        for a in c['mps'][0]['A']:
+            a['re'] = [0] * len(a['re'])
+            a.pop('im', None)
+        out.append(c)
+        c = make_case(rng, 'zero:mpo@', L, 2, 'complex', 0, 2, ['@', O0, O1], Dmpo=2, mode='zero')
+        for m in c['mpo']:
+            for a in m['A']:
+                a['re'] = [0] * len(a['re'])
+                a.pop('im', None)
+        out.append(c)
+    return out
 
 
 P0, P1, P2 = ['psi', 0], ['psi', 1], ['psi', 2]
@@ -243,7 +328,7 @@ def _chain_exprs():
 
 def cases(rng, tier):
     out = []
-    reps = {'quick': 2, 'thorough': 8, 'search': 1}[tier]
+    reps = {'quick': 1, 'thorough': 8, 'search': 1}[tier]
     grid = [(L, d) for L in (1, 2, 3, 4, 5) for d in (1, 2, 3)]
     if tier == 'search':
         grid = [rng.choice(grid) for _ in range(6)]
@@ -305,16 +390,28 @@ def cases(rng, tier):
             out.append({'kind': 'merge_mpo', 'dtype': 'complex' if cplx else 'float', 'valid': True,
                         'A0': enc(_rand_tensor(nrng, (d0, e0, D[0], D[1]), cplx, thin=0.2)),
                         'A1': enc(_rand_tensor(nrng, (d1, e1, D[1], D[2]), cplx, thin=0.2))})
-    # SVD based routines: implementation-level only
-    ns = {'quick': 18, 'thorough': 90, 'search': 9}[tier]
+    out += mixed_cases(rng, tier)
+    # SVD based routines (split: replay against the model; from_vector: implementation-level only);
+    # overall scale 2**sexp from 1e-12 to 1e+12, d = 1, zero tensors
+    ns = {'quick': 24, 'thorough': 96, 'search': 12}[tier]
+    sexps = [0, -40, 40, -20, 20, -33, 0, 30]
+    j0 = rng.randrange(24)
     for j in range(ns):
-        out.append({'kind': 'split', 'seed': rng.getrandbits(32), 'distr': ['left', 'right', 'sqrt'][j % 3], 'cplx': j % 2 == 0,
+        jj = j + j0
+        out.append({'kind': 'split', 'seed': rng.getrandbits(32), 'distr': ['left', 'right', 'sqrt'][jj % 3], 'cplx': (jj // 3) % 2 == 0,
                     'd0': rng.randint(1, 3), 'd1': rng.randint(1, 3), 'D0': rng.randint(1, 4), 'D2': rng.randint(1, 4),
-                    'mode': rng.choice(['zero', 'charged', 'charged']), 'valid': True})
+                    'mode': rng.choice(['zero', 'charged', 'charged']), 'sexp': sexps[jj % len(sexps)], 'valid': True})
+    for j, distr in enumerate(['left', 'right', 'sqrt']):
+        out.append({'kind': 'split', 'seed': rng.getrandbits(32), 'distr': distr, 'cplx': j == 1, 'd0': 1, 'd1': 1,
+                    'D0': rng.randint(1, 3), 'D2': rng.randint(1, 3), 'mode': 'zero', 'sexp': [-40, 0, 40][j], 'valid': True})
+        out.append({'kind': 'split', 'seed': rng.getrandbits(32), 'distr': distr, 'cplx': j == 2, 'd0': 2, 'd1': rng.randint(1, 2),
+                    'D0': 2, 'D2': rng.randint(1, 3), 'mode': 'zero', 'sexp': 0, 'zero': True, 'valid': True})
     for j in range(ns // 2):
         d = rng.randint(1, 3)
         out.append({'kind': 'from_vector', 'seed': rng.getrandbits(32), 'd': d, 'L': rng.randint(1, 5 if d < 3 else 4),
-                    'cplx': j % 2 == 0, 'valid': True})
+                    'cplx': (j + j0) % 2 == 0, 'sexp': sexps[(j + j0 + 1) % len(sexps)], 'valid': True})
+    out.append({'kind': 'from_vector', 'seed': 1, 'd': 1, 'L': 3, 'cplx': False, 'sexp': -40, 'valid': True})
+    out.append({'kind': 'from_vector', 'seed': 2, 'd': 2, 'L': 3, 'cplx': True, 'sexp': 0, 'zero': True, 'valid': True})
     # inputs outside the domain: both sides must refuse (or both accept: sparsity of site 0 is not checked for L > 1)
     out += invalid_cases(rng, tier)
     return out
@@ -382,15 +479,22 @@ def invalid_cases(rng, tier):
 
 def _build(case):
     import pytenet as ptn
-    dt = case['dtype']
+    dts = case.get('dtypes') or {'mps': [case['dtype']] * len(case['mps']), 'mpo': [case['dtype']] * len(case['mpo'])}
+    k = case.get('scale_exp', 0)
+
+    def arr(a, dt):
+        x = dec(a, dt)
+        if k:
+            x = (x.astype(np.float64) if dt == 'int' else x) * 2.0 ** k      # exact: power of two
+        return x
     mpss, mpos = [], []
-    for m in case['mps']:
+    for m, dt in zip(case['mps'], dts['mps']):
         p = ptn.MPS(m.get('qd', case['qd']), m['qD'], fill='postpone')
-        p.A = [dec(a, dt) for a in m['A']]
+        p.A = [arr(a, dt) for a in m['A']]
         mpss.append(p)
-    for m in case['mpo']:
+    for m, dt in zip(case['mpo'], dts['mpo']):
         o = ptn.MPO(m.get('qd', case['qd']), m['qD'], fill='postpone')
-        o.A = [dec(a, dt) for a in m['A']]
+        o.A = [arr(a, dt) for a in m['A']]
         mpos.append(o)
     return mpss, mpos
 
@@ -440,17 +544,25 @@ def impl(case):
             return _impl_from_vector(case)
         mpss, mpos = _build(case)
         r = _eval(case['expr'], case, mpss, mpos)
-        res = {'qd': [int(x) for x in r.qd], 'qD': [[int(x) for x in q] for q in r.qD], 'A': [enc(a) for a in r.A],
-               'nsites': int(r.nsites)}
+        # a common factor 2**k on the operands appears as 2**(k*w) on every result tensor and 2**(k*w*L) on the dense form
+        kw = case.get('scale_exp', 0) * _weight(case['expr'])
+        back = 2.0 ** (-kw)
+        backL = 2.0 ** (-kw * case['L'])
+        res = {'qd': [int(x) for x in r.qd], 'qD': [[int(x) for x in q] for q in r.qD],
+               'A': [enc(a * back if kw else a) for a in r.A], 'nsites': int(r.nsites),
+               'dtypes_out': [str(a.dtype) for a in r.A]}
         if _is_mps_expr(case['expr']):
             res['kind'] = 'mps'
             if case['want_vec']:
-                res['vec'] = enc(r.as_vector())
+                v = r.as_vector()
+                res['vec'] = enc(v * backL if kw else v)
         else:
             res['kind'] = 'mpo'
             if case['want_mat']:
-                res['mat'] = enc(r.as_matrix())
-                res['smat'] = enc(r.as_matrix(sparse_format=True).toarray())
+                M1 = r.as_matrix()
+                M2 = r.as_matrix(sparse_format=True).toarray()
+                res['mat'] = enc(M1 * backL if kw else M1)
+                res['smat'] = enc(M2 * backL if kw else M2)
             if case.get('dense_err'):
                 errs = []
                 for sp in (False, True):
@@ -462,7 +574,7 @@ def impl(case):
                 res['dense_errors'] = errs
         return res
     except Exception as e:
-        return {'error': type(e).__name__}
+        return {'error': type(e).__name__, 'detail': str(e)[:200]}
 
 
 def _split_input(case):
@@ -480,6 +592,9 @@ def _split_input(case):
         A = A + 1j * nrng.standard_normal((d0 * d1, D0, D2))
     mask = _outer([[a + b for a in qd0 for b in qd1], q0, [-x for x in q2]])
     A = np.where(mask == 0, A, 0)
+    A = A * 2.0 ** case.get('sexp', 0)
+    if case.get('zero'):
+        A = np.zeros_like(A)
     return A, qd0, qd1, q0, q2
 
 
@@ -517,6 +632,9 @@ def _impl_from_vector(case):
     v = nrng.standard_normal(n)
     if case['cplx']:
         v = v + 1j * nrng.standard_normal(n)
+    v = v * 2.0 ** case.get('sexp', 0)
+    if case.get('zero'):
+        v = np.zeros_like(v)
     psi = ptn.MPS.from_vector(case['d'], case['L'], v, tol=0)
     w = psi.as_vector()
     return {'err': float(np.max(np.abs(w - v))), 'scale': float(np.max(np.abs(v))), 'nsites': int(psi.nsites),
@@ -640,14 +758,14 @@ def prop(case, r):
     if kind == 'split':
         if not r['shape_ok']:
             msgs.append('merge after split has a different shape')
-        if r['err'] > 1e-10 * (1 + r['scale']):
-            msgs.append('merge(split(A, tol=0, %s)) differs from A by %.3g' % (case['distr'], r['err']))
+        if r['err'] > 1e-10 * r['scale']:
+            msgs.append('merge(split(A, tol=0, %s)) differs from A by %.3g (max |A| = %.3g)' % (case['distr'], r['err'], r['scale']))
         if not r['sparse']:
             msgs.append('split tensors violate block sparsity')
         return msgs
     if kind == 'from_vector':
-        if r['err'] > 1e-10 * (1 + r['scale']):
-            msgs.append('from_vector(tol=0).as_vector() differs from the vector by %.3g' % r['err'])
+        if r['err'] > 1e-10 * r['scale']:
+            msgs.append('from_vector(tol=0).as_vector() differs from the vector by %.3g (max |v| = %.3g)' % (r['err'], r['scale']))
         if r['nsites'] != case['L']:
             msgs.append('from_vector returned %d sites' % r['nsites'])
         return msgs
@@ -795,7 +913,7 @@ def _coq_split(case, r):
     c = r['calls'][0]
     sig = np.array(c['sigma'], dtype=np.float64)
     sq = np.sqrt(sig)
-    tol = Fraction(1, 10 ** 9) * (1 + Fraction(float(r['scale'])))
+    tol = Fraction(1, 10 ** 9) * Fraction(float(r['scale']))
     qs = lambda a: _q(E.site(a, E.qimx))
     return 'check_split %s %s %s %s %s %s %s %s %s %s %s %s %s %s %s %s %s %s' % (
         qs(A), E.zlist(qd0), E.zlist(qd1), E.zlist(q0), E.zlist(q2), E.nat(['left', 'right', 'sqrt'].index(case['distr'])),
@@ -814,14 +932,28 @@ def klass(case, r):
     kind = case['kind']
     if kind in ('merge_mps', 'merge_mpo'):
         return '%s/%s' % (kind, case['dtype'])
+    def sc(k):
+        return 'scale=1' if k == 0 else 'scale=2^%d' % k
     if kind == 'split':
-        return 'split/%s/%s/%s' % (case['distr'], 'complex' if case['cplx'] else 'real', case['mode'])
+        return 'split/%s/%s/%s/%s%s' % (case['distr'], 'complex' if case['cplx'] else 'real', case['mode'], sc(case.get('sexp', 0)),
+                                        '/zero-tensor' if case.get('zero') else '')
     if kind == 'from_vector':
-        return 'from_vector/L%d/d%d' % (case['L'], case['d'])
+        return 'from_vector/L%d/d%d/%s%s' % (case['L'], case['d'], sc(case.get('sexp', 0)), '/zero-vector' if case.get('zero') else '')
+    if kind.startswith('mixed:'):
+        dts = case['dtypes']
+        return '%s/L%s/%s' % (kind, case['L'] if case['L'] <= 2 else '3-5', '+'.join(dts['mpo'] + dts['mps']))
+    if kind.startswith('scaled:'):
+        return '%s/L%s/%s/%s' % (kind, case['L'] if case['L'] <= 2 else '3-5', case['dtype'], sc(case['scale_exp']))
     if kind == 'invalid':
         return 'invalid/%s/L%d/%s' % (case['what'], case['L'], 'raised' if 'error' in r else 'accepted')
     L = case['L']
     return '%s/L%s/d%d/%s/%s' % (kind, L if L <= 2 else '3-5', case['d'], case['dtype'], case['mode'])
+
+
+def finding_key(case, r, msgs):
+    if case.get('kind') == 'from_vector' and case.get('zero') and 'error' in r:
+        return 'from_vector-zero-vector'
+    return None
 
 
 def nontrivial(case, r):
